@@ -47,7 +47,7 @@ const (
 func (p Precompile) CreateValidator(
 	ctx sdk.Context,
 	origin common.Address,
-	_ *vm.Contract,
+	contract *vm.Contract,
 	stateDB vm.StateDB,
 	method *abi.Method,
 	args []interface{},
@@ -71,6 +71,12 @@ func (p Precompile) CreateValidator(
 	// we only allow the tx signer "origin" to create their own validator.
 	if origin != delegatorHexAddr {
 		return nil, fmt.Errorf(ErrDifferentOriginFromDelegator, origin.String(), delegatorHexAddr.String())
+	}
+
+	// A contract can spend the signer's funds only within a grant from the signer, and there is
+	// no authorization for MsgCreateValidator: the signer has to call the precompile itself.
+	if contract.CallerAddress != origin {
+		return nil, fmt.Errorf(ErrCallerNotOrigin, contract.CallerAddress.String(), origin.String())
 	}
 
 	// Execute the transaction using the message server
